@@ -7,6 +7,7 @@
 //!   l  u64                      args().len()
 //!   A  bytes / a ""             one element yielded by args(): Ok(bytes) / Err
 //!   U  status:u8 bytes          var_unix(key i): 0 missing, 1 found(value bytes), 2 not-unicode
+//!   W  trailer:u8 status:u8 bytes  var(key i) again with `trailer` placed right behind the &str key in memory
 //!   V  status:u8 bytes          var(key i) (v = key not usable as &str, skipped); k = key has NUL, skipped
 //!   G  uid u64, gid u64, has_random u8, 16 bytes, has_execfn u8, bytes     tiny_std::elf::aux getters
 //!   P  raw /proc/self/auxv ; p  16 bytes at AT_RANDOM + execfn string, from the probe's own parse
@@ -215,11 +216,28 @@ fn lookups(input: &[u8], mut off: usize, nkeys: u32) {
             Err(_) => rec(b'k', &[]),
         }
         match core::str::from_utf8(&kb[..len]) {
-            Ok(sk) => match tiny_std::env::var(sk) {
-                Ok(v) => rec(b'V', &[&[1], v.as_bytes()]),
-                Err(VarError::Missing) => rec(b'V', &[&[0]]),
-                Err(VarError::NotUnicode(_)) => rec(b'V', &[&[2]]),
-            },
+            Ok(sk) => {
+                match tiny_std::env::var(sk) {
+                    Ok(v) => rec(b'V', &[&[1], v.as_bytes()]),
+                    Err(VarError::Missing) => rec(b'V', &[&[0]]),
+                    Err(VarError::NotUnicode(_)) => rec(b'V', &[&[2]]),
+                }
+                // A &str key is not NUL terminated: whatever byte happens to follow it in memory must not
+                // matter. Repeat the lookup with hostile bytes right behind the key (outside the slice).
+                for t in [b'=', b'A', b'B', 0xFFu8] {
+                    unsafe {
+                        KEYBUF[len] = t;
+                    }
+                    match tiny_std::env::var(sk) {
+                        Ok(v) => rec(b'W', &[&[t], &[1], v.as_bytes()]),
+                        Err(VarError::Missing) => rec(b'W', &[&[t], &[0]]),
+                        Err(VarError::NotUnicode(_)) => rec(b'W', &[&[t], &[2]]),
+                    }
+                }
+                unsafe {
+                    KEYBUF[len] = 0;
+                }
+            }
             Err(_) => rec(b'v', &[]),
         }
     }
